@@ -53,6 +53,22 @@ func hx(b []byte) string {
 	return hex.EncodeToString(b)
 }
 
+// payload decodes the second word of a case line: hex bytes, `-` for none, or `:`-prefixed
+// ASCII text (structured case descriptions).
+func payload(s string) []byte {
+	if strings.HasPrefix(s, ":") {
+		return []byte(s[1:])
+	}
+	return unhx(s)
+}
+
+func (t *target) render(data []byte) string {
+	if t.text {
+		return ":" + string(data)
+	}
+	return hx(data)
+}
+
 func unhx(s string) []byte {
 	if s == "-" {
 		return nil
@@ -95,19 +111,25 @@ func (rn *runner) execCase(line string, record bool) (f hlib.Failure, class stri
 	if t == nil {
 		return hlib.Failure{Kind: "spec", Sig: "bad-case", Detail: "unknown target " + w[0], Case: []string{line}}, ""
 	}
-	inner := unhx(w[1])
+	inner := payload(w[1])
 	data := inner
 	if t.reframe != nil {
 		data = t.reframe(inner)
 	}
 	rn.publish(line)
 	defer rn.wd.End()
+	rearm = func() { rn.wd.Begin(line) }
+	var sf *specFailure
 	measure := func(exact bool) codeclib.Guard {
-		return codeclib.Run(exact, func() { class = t.run(data) })
+		return codeclib.Run(exact, func() {
+			specFail = nil
+			class = t.run(data)
+			sf = specFail
+		})
 	}
 	g := measure(false)
 	limit := uint64(allocBase + allocPerIn*len(data))
-	for retry := 0; retry < 2 && g.Panic == "" && (g.Alloc > limit || g.Elapsed > slowLimit); retry++ {
+	for retry := 0; retry < 2 && g.Panic == "" && sf == nil && (g.Alloc > limit || g.Elapsed > slowLimit); retry++ {
 		g = measure(true)
 	}
 	if record {
@@ -116,6 +138,9 @@ func (rn *runner) execCase(line string, record bool) (f hlib.Failure, class stri
 		}
 	}
 	where := fmt.Sprintf("boundary: %s; call path: %s; input (%d bytes, hex, before re-framing=%v): %s", t.boundary, t.path, len(inner), t.reframe != nil, hx(inner))
+	if t.text {
+		where = fmt.Sprintf("boundary: %s; call path: %s; case: %s", t.boundary, t.path, inner)
+	}
 	switch {
 	case g.Panic != "":
 		st := g.Stack
@@ -127,6 +152,8 @@ func (rn *runner) execCase(line string, record bool) (f hlib.Failure, class stri
 		}
 		return hlib.Failure{Kind: "panic", Sig: "panic-" + t.name, Case: []string{line},
 			Detail: fmt.Sprintf("Go panic: %s; %s; stack: %s", g.Panic, where, strings.ReplaceAll(st, "\n", " | "))}, "panic"
+	case sf != nil:
+		return hlib.Failure{Kind: "spec", Sig: sf.sig, Case: []string{line}, Detail: sf.detail + "; " + where}, class
 	case g.Elapsed > slowLimit:
 		return hlib.Failure{Kind: "spec", Sig: "slow-" + t.name, Case: []string{line},
 			Detail: fmt.Sprintf("took %v; %s", g.Elapsed, where)}, class
@@ -221,7 +248,10 @@ func (rn *runner) probe(name string) (hlib.Failure, string) {
 
 func (rn *runner) shrink(f hlib.Failure) hlib.Failure {
 	w := strings.Fields(f.Case[0])
-	if len(w) != 2 || w[0] == "probe" || w[1] == "-" {
+	if len(w) != 2 || w[0] == "probe" || w[1] == "-" || strings.HasPrefix(w[1], ":") {
+		return f
+	}
+	if t := rn.targets[w[0]]; t == nil || t.live {
 		return f
 	}
 	// Budgeted delta debugging: at most 2000 evaluations / 5 s.
@@ -242,10 +272,10 @@ func (rn *runner) shrink(f hlib.Failure) hlib.Failure {
 	return f
 }
 
-func child(seed uint64, cases int, out, replay, corpus, currentPath string) {
+func child(seed uint64, cases, wordBudget int, out, replay, corpus, currentPath string) {
 	res := hlib.NewResult("codecxdrv", seed)
-	res.Rule = "EXPLORATION. One case = one byte string fed to one boundary entry point (target) together with the node's next processing step; inputs are valid encodings (built in-process, repository testdata, base64 literals harvested from the repository's tests) with 1-3 stacked mutations (generic: bit flips, interesting bytes, 16/32/64-bit length windows, truncation, extension, deletion, insertion, duplication, splice; CBOR-aware: declared count/length changes incl. huge, indefinite lengths, tags, nesting 1..5000, duplicated map pairs, major-type swaps), a few unmutated seeds and random strings; for *-resigned, chunk and rhp-body targets the mutant is re-signed / re-compressed / re-framed so that it gets past the integrity check; non-trivial = the entry point decoded the bytes (outcome other than a decode/envelope rejection); distinct by (target, bytes)"
-	res.Explanation = "EXPLORATION ONLY (search for a failing input; no theorem covers these decoders): panic / fatal error / timeout / allocation blow-up detection on third-party and reflection-driven decode boundaries, plus run-time probes that the pinned strict CBOR options are in force"
+	res.Rule = "EXPLORATION. One case = one byte string fed to one boundary entry point (target) together with the node's next processing step; inputs are valid encodings (built in-process, repository testdata, base64 literals harvested from the repository's tests) with 1-3 stacked mutations (generic: bit flips, interesting bytes, 16/32/64-bit length windows, truncation, extension, deletion, insertion, duplication, splice; CBOR-aware: declared count/length changes incl. huge, indefinite lengths, tags, nesting 1..5000, duplicated map pairs, major-type swaps), a few unmutated seeds and random strings; for *-resigned, chunk, rhp-body and quote-in-bundle targets the mutant is re-signed / re-compressed / re-framed so that it gets past the integrity check; DETERMINISTIC SWEEPS on every run: every length/type field of the PCS quote format at every nesting level (and every frame length prefix of the host-protocol streams) set to each boundary value (0, 1, 2, around the remaining and the total length, 2^7, 2^8, 2^15, 2^16, 2^31-k, 2^32-k for k = 1..16 and every 16 up to 0x400, 2^32-1-remaining), with resized and truncated tails, plus (budget -words per target, rotating with the seed) every 2-byte-aligned 16/32-bit word in both byte orders set to 0 / 2^15 / 2^31 / 2^32-1024 / 2^32-16 / max; LIVE targets: rhp-live-host / rhp-live-guest feed the stream to a real protocol.Connection over net.Pipe (oracle: follow-up request answered, one response per request, Close() and the outstanding call return within 20 s, no goroutine of the package left; a failing attempt is repeated once on a fresh connection), mux-tx / mux-raw / mux-resigned feed CheckTx, re-CheckTx and DeliverTx of a real ABCI multiplexer with 8 applications (mux-tx: correctly signed transactions with boundary-valued signer / nonce / fee amount x gas / method / body kind, a deterministic core of all amount x gas pairs and all methods x body kinds plus random draws from the product; a canary transfer must still pass CheckTx after every case); non-trivial = the entry point decoded the bytes (outcome other than a decode/envelope rejection); distinct by (target, bytes)"
+	res.Explanation = "EXPLORATION ONLY (search for a failing input; no theorem covers these decoders): panic / fatal error / timeout / allocation blow-up detection on third-party and reflection-driven decode boundaries, hang / goroutine-leak / lost-response detection on a live host-protocol connection, panic and canary detection on CheckTx/DeliverTx of a live multiplexer, plus run-time probes that the pinned strict CBOR options are in force. Counters per target: case:, accepts:, rejects:, outcome:, lenfield: (structure-aware boundary-length mutations applied), lenword: (generic word-level ones), sweep: (structured deterministic cases)"
 	rn := &runner{targets: map[string]*target{}, res: res, seen: map[uint64]bool{}, maxA: map[string]uint64{}}
 	if currentPath != "" {
 		rn.current, _ = os.OpenFile(currentPath, os.O_CREATE|os.O_RDWR, 0o644)
@@ -273,6 +303,7 @@ func child(seed uint64, cases int, out, replay, corpus, currentPath string) {
 		for k, v := range rn.maxA {
 			res.Counters["max-alloc-bytes:"+k] = int(v)
 		}
+		res.Counters["live-retries"] = liveRetries
 		for _, d := range cleanupDirs {
 			_ = os.RemoveAll(d)
 		}
@@ -280,12 +311,22 @@ func child(seed uint64, cases int, out, replay, corpus, currentPath string) {
 	}
 	failedTargets := map[string]bool{}
 	one := func(line string, cs uint64, minimize bool) {
+		if w := strings.Fields(line); len(w) > 0 && failedTargets[w[0]] {
+			res.Count("skipped-after-failure:" + w[0])
+			return
+		}
 		f, class := rn.execCase(line, true)
 		res.Cases++
 		res.Ops++
 		t := strings.Fields(line)[0]
 		res.Count("case:" + t)
 		res.Count("outcome:" + t + ":" + class)
+		switch {
+		case strings.HasPrefix(class, "rejected") || class == "refused" || class == "malformed" || class == "truncated":
+			res.Count("rejects:" + t)
+		case class != "panic" && class != "failed" && class != "":
+			res.Count("accepts:" + t)
+		}
 		if !strings.HasPrefix(class, "rejected:decode") && !strings.HasPrefix(class, "rejected:envelope") && class != "rejected" && !rn.seen[fnv64(line)] {
 			rn.seen[fnv64(line)] = true
 			res.Distinct++
@@ -331,6 +372,34 @@ func child(seed uint64, cases int, out, replay, corpus, currentPath string) {
 			}
 		}
 	}
+	// Deterministic sweeps (every run): structured boundary cases; every length / type field of
+	// every seed at every nesting level set to every boundary value, resized and truncated tails;
+	// and, within a budget, every 2-byte-aligned 16/32-bit word treated as a length field.
+	for _, t := range rn.order {
+		if t.sweep != nil {
+			for _, d := range t.sweep() {
+				one(t.name+" "+t.render(d), 0, false)
+				res.Count("sweep:" + t.name)
+			}
+		}
+		if t.fields != nil {
+			for _, sd := range t.seeds {
+				for _, m := range codeclib.FieldSweep(sd, t.fields(sd)) {
+					one(t.name+" "+t.render(m.Data), 0, !t.live)
+					res.Count("lenfield:" + t.name)
+					res.Count("lenfield-field:" + m.What)
+				}
+			}
+		}
+		if t.words && wordBudget > 0 {
+			for si, sd := range t.seeds {
+				for _, m := range codeclib.WordSweep(sd, int(seed%1_000_003)*7919+si*131, wordBudget/len(t.seeds)) {
+					one(t.name+" "+t.render(m.Data), 0, !t.live)
+					res.Count("lenword:" + t.name)
+				}
+			}
+		}
+	}
 	rng := hlib.NewRng(seed)
 	for i := 0; i < cases && len(res.Failures) < 5; i++ {
 		cr := rng.Fork()
@@ -343,6 +412,11 @@ func child(seed uint64, cases int, out, replay, corpus, currentPath string) {
 		seedBytes := t.seeds[cr.Intn(len(t.seeds))]
 		data := seedBytes
 		switch k := cr.Intn(100); {
+		case t.gen != nil:
+			var mk string
+			data, mk = t.gen(cr)
+			res.Count("gen:structured")
+			res.Count("mut:" + mk)
 		case k < 3:
 			res.Count("gen:valid-seed")
 		case k < 6:
@@ -355,7 +429,17 @@ func child(seed uint64, cases int, out, replay, corpus, currentPath string) {
 			}
 			for j := 0; j < n; j++ {
 				var mk string
-				data, mk = codeclib.Mutate(cr, data, t.seeds[cr.Intn(len(t.seeds))], t.cbor || cr.Chance(1, 4))
+				if t.fields != nil && cr.Chance(1, 3) {
+					// structure-aware: one of the format's own length / type fields to a boundary value
+					data, mk = codeclib.MutateField(cr, data, t.fields(data))
+					res.Count("lenfield:" + t.name)
+					mk = "lenfield"
+				} else {
+					data, mk = codeclib.Mutate(cr, data, t.seeds[cr.Intn(len(t.seeds))], t.cbor || cr.Chance(1, 4))
+					if mk == "lenword" {
+						res.Count("lenword:" + t.name)
+					}
+				}
 				res.Count("mut:" + mk)
 			}
 			res.Count("gen:mutant")
@@ -363,7 +447,7 @@ func child(seed uint64, cases int, out, replay, corpus, currentPath string) {
 		if len(data) > 1<<20 {
 			data = data[:1<<20]
 		}
-		line := t.name + " " + hx(data)
+		line := t.name + " " + t.render(data)
 		if i < 2 {
 			res.AddSample(map[string]string{"target": t.name, "boundary": t.boundary, "bytes": fmt.Sprintf("%.120s", hx(data))})
 		}
@@ -378,6 +462,7 @@ func main() {
 	out := flag.String("out", "-", "result file")
 	replay := flag.String("replay", "", "replay file (one case per line)")
 	corpus := flag.String("corpus", "", "corpus dir, run first")
+	words := flag.Int("words", 6000, "budget (cases per target) of the generic 16/32-bit word sweep over binary encodings")
 	isChild := flag.Bool("child", false, "internal: run the cases (the parent supervises)")
 	selftest := flag.Bool("selftest", false, "run every seed unmutated and print the outcome")
 	current := flag.String("current", "", "internal: file receiving the case in progress")
@@ -390,8 +475,8 @@ func main() {
 				if t.reframe != nil {
 					data = t.reframe(sd)
 				}
-				lastErr = nil
-				fmt.Printf("%-16s seed %d (%d bytes): %s  %v\n", t.name, i, len(sd), t.run(data), lastErr)
+				lastErr, specFail = nil, nil
+				fmt.Printf("%-16s seed %d (%d bytes): %s  %v %v\n", t.name, i, len(sd), t.run(data), lastErr, specFail)
 			}
 		}
 		for _, d := range cleanupDirs {
@@ -400,7 +485,7 @@ func main() {
 		return
 	}
 	if *isChild {
-		child(*seed, *cases, *out, *replay, *corpus, *current)
+		child(*seed, *cases, *words, *out, *replay, *corpus, *current)
 		return
 	}
 	// Supervisor: run the cases in a child so that fatal runtime errors (stack overflow, out of
@@ -418,7 +503,7 @@ func main() {
 	defer os.Remove(cur.Name())
 	tmpOut := cur.Name() + ".json"
 	defer os.Remove(tmpOut)
-	args := []string{"-child", "-seed", fmt.Sprint(*seed), "-cases", fmt.Sprint(*cases), "-out", tmpOut, "-current", cur.Name()}
+	args := []string{"-child", "-seed", fmt.Sprint(*seed), "-cases", fmt.Sprint(*cases), "-words", fmt.Sprint(*words), "-out", tmpOut, "-current", cur.Name()}
 	if *replay != "" {
 		args = append(args, "-replay", *replay)
 	}
